@@ -153,6 +153,16 @@ func txCaseLine(c *txCase) string {
 		if tx.reuse {
 			reuse = 1
 		}
+		if tx.mode == 'g' {
+			parts = append(parts, fmt.Sprintf("tx g %d %d", reuse, len(tx.members)))
+			for _, m := range tx.members {
+				parts = append(parts, fmt.Sprintf("mb %d %d %d", m.faultInv, m.faultPos, len(m.steps)))
+				for _, s := range m.steps {
+					parts = append(parts, txStepLine(s))
+				}
+			}
+			continue
+		}
 		parts = append(parts, fmt.Sprintf("tx %c %d %d", tx.mode, reuse, len(tx.steps)))
 		for _, s := range tx.steps {
 			parts = append(parts, txStepLine(s))
@@ -1021,4 +1031,11 @@ func txGenCommon(tier string, seed uint64, out *bufio.Writer, faultQuick, faultT
 	for i := 0; i < nRandom; i++ {
 		emit(txRandomCase(r, p))
 	}
+	// batch groups (several Db.Batch calls coalesced by bbolt into one batch); a random stream of their own, so that
+	// the cases above stay what they were
+	nGroups := 160
+	if tier == "thorough" {
+		nGroups = 4000
+	}
+	txGroupCases(newRng(seed^0x6772703a), p, nGroups, emit)
 }
